@@ -61,7 +61,7 @@ Section Zoned.
   Theorem general_dtz_roundtrip on items texts ws :
     valid_dtz yu ou z -> (forall k, on = Some k -> 0 <= k <= 999999999) ->
     Forall2 (doc_item sv on) items texts ->
-    unambiguous_b (combine items texts) [] = Some ws ->
+    reader_takes (combine items texts) ws ->
     date_comb_b yl (fst (iso_of_dn (dn_of_yo yl ol))) (apply_ws ws parsed_new) = true ->
     time_comb_b (apply_ws ws parsed_new) = true -> some_b (p_offset (apply_ws ws parsed_new)) = true ->
     exists a,
@@ -212,17 +212,18 @@ Proof.
               ltac:(intros _; discriminate) items Hs Hk) as (texts & HF).
   { rewrite Forall_forall. intros it Hin. unfold frac_class_ok in Hfc. rewrite forallb_forall in Hfc.
     exact (frac_class_item sv k it (Hfc it Hin)). }
-  destruct (static_accept sv on Bsv Hmin items texts Hs HF) as (ws & HU).
-  destruct (real_presence items texts ws (F2_length _ _ _ HF) HU) as [HP HN].
+  destruct (static_accept sv on Bsv Hmin items texts Hs HF) as (ws & HU & HE).
+  pose proof (eq_trans (map_fst_absorb (combine items texts)) (map_fst_combine items texts (F2_length _ _ _ HF))) as Hl.
+  destruct (real_presence items _ ws Hl HU) as [HP HN].
   assert (HCd : date_comb_b yl (fst (iso_of_dn (dn_of_yo yl ol))) (apply_ws ws parsed_new) = true).
   { rewrite (date_comb_ext _ _ _ _ HP). apply date_comb_mono. exact Hcd. }
   assert (HCo : some_b (p_offset (apply_ws ws parsed_new)) = true).
   { pose proof (HP F_offset ltac:(discriminate)) as E. rewrite shape_present in E. cbn [pget] in E. rewrite E. exact Hoff. }
-  destruct (general_dtz_roundtrip yu ou du su fu off on items texts ws Hv Hon HF HU HCd
+  destruct (general_dtz_roundtrip yu ou du su fu off on items texts ws Hv Hon HF (or_intror HU) HCd
               (time_comb_transfer _ _ Hct HP HN) HCo) as (a & Ha & Hwi & Hp & V4 & V5).
   exists a, (concat texts). split; [exact Ha|]. split; [exact Hwi|]. rewrite Hp.
   fold n yl ol sl tl in V4, V5 |- *.
-  rewrite (time_value_static sv k items texts ws tl Bsv eq_refl Hvl Hs Hct HF HU V4 V5).
+  rewrite (time_value_static sv k items _ ws tl eq_refl Hvl Hct Hl HE HU V4 V5).
   unfold tl, sl. destruct Hvt as [Hsu _]. cbn [Model.Time.tsecs] in Hsu. rewrite (back_static items k su fu off Hsu Hm). reflexivity.
 Qed.
 
